@@ -30,7 +30,7 @@ REQUIRED_CLASSES = ['single-element', 'single-isotope', 'natural', 'most-abundan
                     'nucleon', 'deuterium-tritium', 'explicit-multiplication', 'implicit-multiplication',
                     'explicit-addition', 'blank-between-terms', 'adjacent-terms', 'repeated-species', 'dict-form',
                     'substance+substance', 'substance+element', 'substance*number']
-REQUIRED_MONITORS = ['species_rows_compared', 'sum_rows_compared', 'counts_compared', 'table_hygiene_checks']
+REQUIRED_MONITORS = ['mode_twin_tables', 'species_rows_compared', 'sum_rows_compared', 'counts_compared', 'table_hygiene_checks']
 ASSUMPTIONS = ['PT_DATA and the unit-table magnitudes of Da, [m_e], [m_p], [m_n] are the reference data (the model reads them, '
                'it does not check them against NIST)',
                'species identity is (element, A, charge): D = H{2}, T = H{3}; counts are compared after merging species '
@@ -214,6 +214,8 @@ def known_group_defect(f, exc):
 
 
 def observe(sub):
+    from vt.props import mat_modes
+    mat_modes.check(sub)        # both reading modes of the tables (plain numbers / default Quantity cells) agree
     comps = {k: plain(v.proportion) for k, v in sub.components.items()}
     dc = sub.data_components(quantity=False)
     rows = {}
@@ -275,7 +277,8 @@ def defined(T, idents, natural):
 
 
 def run_case(case, ctx):
-    return _run(case, ctx)
+    from vt.props import mat_modes
+    return mat_modes.drain(_run(case, ctx))
 
 
 def _finish(ctx, out):
